@@ -26,6 +26,10 @@ verified) and the number `class.Hash()` computes from the definition. -/
 structure ClassDef where
   cairo0 : Bool
   computedHash : Nat
+  /-- round 5: `sierraClass.Compiled.Hash(HashVersionV2)` does NOT return for this definition — `Compiled` is nil, or
+  the bytecode is shorter than its segment lengths (`ModelBody.lean: compiledHashPanics` says exactly when). Read by
+  `storeCasmHashMetadataV1` only (ModelStore.lean `casmV1`); no check of `SanityCheckNewHeight` looks at it. -/
+  compiledBad : Bool := false
 deriving DecidableEq, Repr, Inhabited
 
 abbrev Classes := List (Nat × ClassDef)
